@@ -282,6 +282,10 @@ func genReq(c *Ctx, fx *Fixture, urlOnly, nestedInBody bool) *dynamicpb.Message 
 	if pick(3) {
 		l := m.Mutable(fs.ByName("rs")).List()
 		for i, k := 0, 1+c.Rng.Intn(3); i < k; i++ {
+			if pick(5) {
+				l.Append(protoreflect.ValueOfString("")) // an empty element is an element
+				continue
+			}
 			l.Append(protoreflect.ValueOfString(strs[c.Rng.Intn(len(strs))]))
 		}
 	}
@@ -313,9 +317,14 @@ func genReq(c *Ctx, fx *Fixture, urlOnly, nestedInBody bool) *dynamicpb.Message 
 		set("wu32", protoreflect.ValueOfMessage(wrapperspb.UInt32(7).ProtoReflect()))
 	}
 	if pick(4) {
-		if pick(2) {
+		switch {
+		case pick(6):
+			set("oa", protoreflect.ValueOfString("")) // a oneof member set to its empty value is set
+		case pick(6):
+			set("ob", protoreflect.ValueOfInt32(0))
+		case pick(2):
 			set("oa", protoreflect.ValueOfString(strs[c.Rng.Intn(len(strs))]))
-		} else {
+		default:
 			set("ob", protoreflect.ValueOfInt32(int32(c.Rng.Intn(1000))))
 		}
 	}
